@@ -19,13 +19,14 @@ Conds == {"intact", "intact-empty", "intact-dirs", "header-damaged", "data-damag
 (* stored-damaged: a byte of a stored (Copy) member changed - no decoder notices, only the member's CRC                     *)
 Good == {"intact", "intact-empty", "intact-dirs"}
 (* option class: volume size argument (for c), or none *)
-Opts == {"none", "verbose", "vol-digits", "vol-b", "vol-k", "vol-m", "vol-g", "vol-bad-unit", "vol-empty", "no-suffix", "cwd"}
+Opts == {"none", "verbose", "vol-digits", "vol-b", "vol-k", "vol-m", "vol-g", "vol-bad-unit", "vol-empty", "no-suffix", "dotted-name", "cwd"}
+(* no-suffix: archive name given without ".7z" (the CLI appends it); dotted-name: ... and with another dot in it ("arc.v1" -> "arc.v1.7z") *)
 
 VolumeValid(o) == o \in {"vol-digits", "vol-b", "vol-k", "vol-m", "vol-g"}        \* the grammar the help describes: [0-9]+[bkmg]?
 
 Meaningful(cmd, cond, opt) ==
   CASE cmd = "i" -> cond = "absent" /\ opt = "none"
-    [] cmd = "c" -> cond \in {"absent", "exists"} /\ opt \in {"none", "no-suffix", "vol-digits", "vol-b", "vol-k", "vol-m", "vol-g", "vol-bad-unit", "vol-empty"}
+    [] cmd = "c" -> cond \in {"absent", "exists"} /\ opt \in {"none", "no-suffix", "dotted-name", "vol-digits", "vol-b", "vol-k", "vol-m", "vol-g", "vol-bad-unit", "vol-empty"}
     [] cmd = "a" -> cond \in {"intact", "absent"} /\ opt = "none"
     [] cmd = "l" -> cond \in Good \cup {"header-damaged", "data-damaged", "stored-damaged", "needs-password"} /\ opt \in {"none", "verbose"}
     [] cmd = "x" -> cond \in Good \cup {"header-damaged", "data-damaged", "stored-damaged", "needs-password", "unsupported-method"} /\ opt \in {"none", "verbose", "cwd"}
@@ -33,7 +34,7 @@ Meaningful(cmd, cond, opt) ==
 
 Succeeds(cmd, cond, opt) ==
   CASE cmd = "i" -> TRUE
-    [] cmd = "c" -> cond = "absent" /\ (opt \in {"none", "no-suffix"} \/ VolumeValid(opt))
+    [] cmd = "c" -> cond = "absent" /\ (opt \in {"none", "no-suffix", "dotted-name"} \/ VolumeValid(opt))
     [] cmd = "a" -> cond = "intact"
     [] cmd = "l" -> cond \in Good \cup {"data-damaged", "stored-damaged", "needs-password"}      \* listing reads the (unencrypted) header only
     [] cmd \in {"x", "t"} -> cond \in Good
